@@ -284,10 +284,12 @@ NOOP_RESULT = {
     "hashbrown::HashSet::<T, S, A>::insert": ("bool", 0),
     "hashbrown::HashSet::<T, S, A>::remove": ("bool", 0),
 }
+# removal from a map that returns None found nothing and changed nothing
+NOOP_NONE = ("::shift_remove", "::swap_remove", "::remove", "::shift_remove_full", "::swap_remove_full", "::remove_entry", "::take", "::pop")
 _wsum = {}
 
 
-def write_summary(F, callee_path):
+def write_summary(F, callee_path, _depth=0):
     """For an in-crate callee taking &mut self: the set of Option/Result variants of its return value
     for which *no* path writes through self (computed by exploring the callee itself)."""
     key = (F.hash, callee_path)
@@ -306,7 +308,7 @@ def write_summary(F, callee_path):
                     continue
                 v = p.ret
                 var = v[2] if v and v[0] == "agg" else None
-                wrote = any(e[0] == "write" and e[1] == ("self",) for e in p.effects)
+                wrote = bool(effective_writes(F, p, _depth + 1)) if _depth < 3 else any(e[0] == "write" and e[1] == ("self",) for e in p.effects)
                 by.setdefault(var, []).append(wrote)
             out = {var for var, ws in by.items() if var is not None and not any(ws)}
             if None in by:
@@ -315,7 +317,7 @@ def write_summary(F, callee_path):
     return out
 
 
-def effective_writes(F, p):
+def effective_writes(F, p, _depth=0):
     """(field, how, effect) for every self-field write on the path that is not a provable no-op."""
     out = []
     for e in p.effects:
@@ -335,8 +337,11 @@ def effective_writes(F, p):
                     c = p.cons.get(res)
                     if c is not None and c[0] == "eq" and c[1] == nr[1]:
                         continue
+                elif callee not in F.fns and any(callee.endswith(x) for x in NOOP_NONE) and \
+                        p.cons.get(("discr", res, "std::option::Option")) == ("eq", 0):      # discriminant 0 = None
+                    continue
                 else:
-                    nov = write_summary(F, callee)
+                    nov = write_summary(F, callee, _depth)
                     if nov:
                         done = False
                         for adt in ("std::option::Option", "std::result::Result"):
